@@ -5,10 +5,12 @@ import (
 	"encoding/json"
 	"fmt"
 	parser "github.com/openfga/language/pkg/go/gen"
+	"github.com/openfga/language/pkg/go/validation"
 	"io"
 	"os"
 	"os/exec"
 	"runtime"
+	"strings"
 	"syscall"
 	"testing"
 	"time"
@@ -148,6 +150,31 @@ func runOp(op, text string, more []string) string {
 			out += "|" + k + "=" + r.res[k]
 		}
 		return out
+	case "after":
+		// text: JSON list of requests; all are performed in order, the fingerprint of the LAST one is returned
+		var reqs []childReq
+		if err := json.Unmarshal([]byte(text), &reqs); err != nil || len(reqs) == 0 {
+			return "bad request list"
+		}
+		out := ""
+		for _, r := range reqs {
+			out = func() (res string) {
+				defer func() {
+					if x := recover(); x != nil {
+						res = fmt.Sprint("PANIC:", x)
+					}
+				}()
+				return runOp(r.Op, r.Text, r.More)
+			}()
+		}
+		return out
+	case "strings":
+		var b strings.Builder
+		for _, s := range append([]string{text}, more...) {
+			fmt.Fprintf(&b, "%v%v%v%v%v%v%v%v%v|", validation.ValidateObject(s), validation.ValidateUser(s), validation.ValidateUserSet(s), validation.ValidateUserObject(s),
+				validation.ValidateUserWildcard(s), validation.ValidateType(s), validation.ValidateRelation(s), validation.ValidateObjectID(s), validation.ValidateRelationshipCondition(s))
+		}
+		return b.String()
 	case "vocab":
 		// the vocabularies the generated Go package reports at run time; text says which half is initialised first
 		var pr *parser.OpenFGAParser
